@@ -729,6 +729,52 @@ func c09OutputBuffer(c *Ctx) {
 			continue
 		}
 		c.Fn(FuncName(fn))
+		// what a function returns: "" if it is Bytes() of a local buffer written by WriteTo (directly,
+		// or as the result of a helper of the package of which the same holds), else the reason
+		var judge func(f *ssa.Function, v ssa.Value, d int) string
+		judge = func(f *ssa.Function, v ssa.Value, d int) string {
+			call, ok := v.(*ssa.Call)
+			cal := (*ssa.Function)(nil)
+			if ok {
+				cal = call.Call.StaticCallee()
+			}
+			if cal != nil && inModule(cal) && fnPkg(cal) == fnPkg(f) && len(cal.Blocks) > 0 && d < 2 && cal.Signature.Results().Len() == 1 {
+				c.Fn(FuncName(cal))
+				for _, hb := range cal.Blocks {
+					if hr, ok := hb.Instrs[len(hb.Instrs)-1].(*ssa.Return); ok && len(hr.Results) == 1 {
+						if why := judge(cal, hr.Results[0], d+1); why != "" {
+							return why
+						}
+					}
+				}
+				return ""
+			}
+			if cal == nil || cal.Name() != "Bytes" || cal.Pkg == nil || cal.Pkg.Pkg.Path() != "bytes" || len(call.Call.Args) != 1 {
+				return "the result is not the Bytes() of the buffer WriteTo wrote (" + pathName(v) + "): the rendered bytes are altered after rendering (trimmed, sliced, copied through something else)"
+			}
+			buf := call.Call.Args[0]
+			al, isLocal := buf.(*ssa.Alloc)
+			if !isLocal {
+				return "the buffer whose bytes are returned is not allocated by this call (" + pathName(buf) + "): a pooled or shared buffer is reused, and the slice handed to the caller is overwritten by the next call"
+			}
+			for _, r := range *al.Referrers() {
+				if wc, ok := r.(*ssa.Call); ok && wc != call {
+					if w := wc.Call.StaticCallee(); w != nil && w.Name() == "WriteTo" && inModule(w) {
+						return ""
+					}
+				}
+				if mi, ok := r.(*ssa.MakeInterface); ok {
+					for _, r2 := range *mi.Referrers() {
+						if wc, ok := r2.(*ssa.Call); ok {
+							if w := wc.Call.StaticCallee(); w != nil && w.Name() == "WriteTo" && inModule(w) {
+								return ""
+							}
+						}
+					}
+				}
+			}
+			return "the buffer whose bytes are returned is not the one handed to WriteTo"
+		}
 		for _, b := range fn.Blocks {
 			ret, ok := b.Instrs[len(b.Instrs)-1].(*ssa.Return)
 			if !ok || len(ret.Results) != 1 {
@@ -737,44 +783,8 @@ func c09OutputBuffer(c *Ctx) {
 			n++
 			c.Sites++
 			key := FuncName(fn) + ":result"
-			call, ok := ret.Results[0].(*ssa.Call)
-			cal := (*ssa.Function)(nil)
-			if ok {
-				cal = call.Call.StaticCallee()
-			}
-			if cal == nil || cal.Name() != "Bytes" || cal.Pkg == nil || cal.Pkg.Pkg.Path() != "bytes" || len(call.Call.Args) != 1 {
-				c.Fail("output.buffer", key, ret.Pos(), "the result is not the Bytes() of the buffer WriteTo wrote ("+pathName(ret.Results[0])+"): the rendered bytes are altered after rendering (trimmed, sliced, copied through something else)")
-				continue
-			}
-			buf := call.Call.Args[0]
-			al, isLocal := buf.(*ssa.Alloc)
-			written := false
-			if isLocal {
-				for _, r := range *al.Referrers() {
-					if wc, ok := r.(*ssa.Call); ok && wc != call {
-						if w := wc.Call.StaticCallee(); w != nil && w.Name() == "WriteTo" && inModule(w) {
-							written = true
-						}
-					}
-					if mi, ok := r.(*ssa.MakeInterface); ok {
-						for _, r2 := range *mi.Referrers() {
-							if wc, ok := r2.(*ssa.Call); ok {
-								if w := wc.Call.StaticCallee(); w != nil && w.Name() == "WriteTo" && inModule(w) {
-									written = true
-								}
-							}
-						}
-					}
-				}
-			}
-			switch {
-			case !isLocal:
-				c.Fail("output.buffer", key, ret.Pos(), "the buffer whose bytes are returned is not allocated by this call ("+pathName(buf)+"): a pooled or shared buffer is reused, and the slice handed to the caller is overwritten by the next call")
-			case !written:
-				c.Fail("output.buffer", key, ret.Pos(), "the buffer whose bytes are returned is not the one handed to WriteTo")
-			default:
-				c.OK("output.buffer", key, ret.Pos(), "Bytes() of a local buffer written by WriteTo")
-			}
+			why := judge(fn, ret.Results[0], 0)
+			c.Check(why == "", "output.buffer", key, ret.Pos(), "Bytes() of a local buffer written by WriteTo", why)
 		}
 	}
 	c.Floor("output.buffer returns", n, 2, "Format and File.Bytes")
